@@ -79,6 +79,12 @@ func genAliasTree(r *rand.Rand, depth int) V {
 	if r.Intn(6) == 0 {
 		c.Opt |= fNoPad
 	}
+	if r.Intn(5) == 0 {
+		c.Opt |= fFold // the word as presented is not the kind: a nested NOT is a NOT in any letter case
+	}
+	if r.Intn(8) == 0 && c.Kind != 4 { // (a LIST takes no symbol)
+		c.Sym = []string{"NOT", "not", "&", "AND"}[r.Intn(4)]
+	}
 	st := V{T: 'K', Form: forms[r.Intn(4)], Cfg: c}
 	for i, n := 0, 1+r.Intn(4); i < n; i++ {
 		nextLeaf++
